@@ -3,30 +3,28 @@
  'functions': ['replace_substrings'],
  'replace': ['igris_memmem', 'memcpy'],
  'include': ['/verif/units/C19/cxxshim'],
- 'params': {'GROW': [0]},
  'tier': 'thorough',
- 'clauses': 'FIRST-OCCURRENCE part of the replace_substrings contract (thorough tier: 160 s): sub does not occur at any position between the end of the previous match and match m, nor behind the last match (a differing byte is exhibited). The whole contract: replace_substrings(buffer, maxsize, input, inlen, sub, sublen, rep, replen) against the reference left-to-right non-overlapping substitution '
+ 'clauses': 'FIRST-OCCURRENCE part of the replace_substrings contract : sub does not occur at any position between the end of the previous match and match m, nor behind the last match (a differing byte is exhibited). The whole contract: replace_substrings(buffer, maxsize, input, inlen, sub, sublen, rep, replen) against the reference left-to-right non-overlapping substitution '
             '(match m = FIRST occurrence of sub in input at or behind the end of match m-1; the search for match 0 starts at 0): for every m: sub occurs at '
             'the recorded position p_m (byte for byte), it does not occur at any position between the end of the previous match and p_m (a differing byte '
             'is exhibited), the next search starts at p_m + sublen; behind the last match sub does not occur any more; sublen == 0: no match (plain copy); '
             'every memcpy and the final terminator store stay inside buffer[0..maxsize) (exact-size object), inside input[0..inlen), sub, rep (exact-size, '
             'non-terminated); the terminator is stored at the output length (sum of the copied gaps and replacements); terminates. '
-            'GROW=0: replen <= sublen, both symbolic; GROW=1: sublen == 1, replen == 2 (a growing replacement; the products are by constants). '
+            'After the fix of C19_replace_substrings_maxsize: every maxsize, sublen, replen. '
             'The copied CONTENT is checked on igris::replace (same loop, unit cxx_replace): legacy contract replacement havocs the whole buffer at each memcpy.',
  'kf': ['C19_replace_substrings_maxsize'],
- 'kf_probe_case': {'C19_replace_substrings_maxsize': {'PROBED_BY_UNIT_replace_substrings': 1}},
  'inject': [
    {'file': 'igris/string/replace_substrings.c', 'func': 'replace_substrings', 'at': 'func-begin', 'ghost': 'g_in0 = input; g_buf0 = buffer;'},
    {'file': 'igris/string/replace_substrings.c', 'func': 'replace_substrings', 'at': 'body-begin', 'loop': 0,
     'ghost': 'if (g_nm == g_m) { g_prev = (size_t)(strit - g_in0); g_pm = (size_t)((const char *)finded - g_in0); if (g_prev <= g_w && g_w < g_pm) g_wd = g_mm_d; } if (g_nm == g_m + 1) g_prev1 = (size_t)(strit - g_in0); g_nm++;'},
-   {'file': 'igris/string/replace_substrings.c', 'func': 'replace_substrings', 'at': 'before', 'anchor': 'ptrdiff_t lastlen = streit - strit;',
-    'ghost': 'g_last = (size_t)(strit - g_in0); if (g_last <= g_w) g_wd_last = g_mm_d; g_outlen = (size_t)(bufit - g_buf0) + (size_t)(streit - strit);'},
-   {'file': 'igris/string/replace_substrings.c', 'func': 'replace_substrings', 'loop': 0, 'expect': 'while ((finded = igris_memmem(',
+   {'file': 'igris/string/replace_substrings.c', 'func': 'replace_substrings', 'at': 'before', 'anchor': 'memcpy(bufit, strit, lastlen',
+    'ghost': 'g_last = (size_t)(strit - g_in0); if (g_last <= g_w) g_wd_last = g_mm_d; g_outlen = (size_t)(bufit - g_buf0) + lastlen; g_done = 1;'},
+   {'file': 'igris/string/replace_substrings.c', 'func': 'replace_substrings', 'loop': 0, 'expect': 'while (',
     'assigns': 'strit, bufit, finded, g_nm, g_prev, g_pm, g_wd, g_prev1, g_mm_d, __CPROVER_object_whole(buffer)',
     'invariants': [
       '__CPROVER_same_object(strit, g_in0) && __CPROVER_POINTER_OFFSET(g_in0) == 0 && (size_t)__CPROVER_POINTER_OFFSET(strit) <= inlen && streit == g_in0 + inlen && input == g_in0',
-      '__CPROVER_same_object(bufit, g_buf0) && __CPROVER_POINTER_OFFSET(g_buf0) == 0 && buffer == g_buf0',
-      'C19_FIT((size_t)__CPROVER_POINTER_OFFSET(bufit), (size_t)__CPROVER_POINTER_OFFSET(strit))',
+      'maxsize >= 1 && __CPROVER_same_object(bufit, g_buf0) && __CPROVER_POINTER_OFFSET(g_buf0) == 0 && buffer == g_buf0 && bufend == g_buf0 + (maxsize - 1)',
+      '(size_t)__CPROVER_POINTER_OFFSET(bufit) <= maxsize - 1',
       'g_nm <= (size_t)__CPROVER_POINTER_OFFSET(strit) && (g_nm == 0 ==> (size_t)__CPROVER_POINTER_OFFSET(strit) == 0)',
       'g_nm > g_m ==> (g_prev <= g_pm && C19_INSIDE(g_pm, sublen, (size_t)__CPROVER_POINTER_OFFSET(strit)) && sublen >= 1)',
       '(g_nm > g_m && g_prev <= g_w && g_w < g_pm && C19_INSIDE(g_pm, sublen, inlen)) ==> (g_wd < sublen && g_in0[g_w + g_wd] != sub[g_wd])',
@@ -41,18 +39,12 @@
 #include "libc_contracts.h"
 /* [p, p + len) lies inside [0, n), without wrap-around */
 #define C19_INSIDE(p, len, n) ((p) <= (n) && (len) <= (n) - (p))
-#if GROW
-#define C19_FIT(out, in) ((out) <= 2 * (in))
-#define C19_WORST(inlen) (2 * (inlen))
-#else
-#define C19_FIT(out, in) ((out) <= (in))
-#define C19_WORST(inlen) (inlen)
-#endif
 size_t g_m, g_j, g_w;                 /* in: ghost match index, needle index, input position */
 size_t g_nm;                          /* out: number of matches */
 size_t g_prev, g_pm, g_prev1;         /* out: search start and position of match g_m; search start of match g_m + 1 */
 size_t g_wd, g_wd_last;               /* out: differing index at position g_w (in front of match g_m / behind the last match) */
 size_t g_last, g_outlen;              /* out: search start of the final (failing) search; output length */
+int g_done;                           /* out: the tail copy was reached */
 const char *g_in0;
 char *g_buf0;
 #include "igris/string/replace_substrings.c"
@@ -70,29 +62,24 @@ void harness(void)
     WIT_ARR(char, cs, 6);
     WIT_ARR(char, cr, 6);
     __CPROVER_assume(inlen <= VC_MAXOBJ / 4 && maxsize <= VC_MAXOBJ);
-#if GROW
-    __CPROVER_assume(sublen == 1 && replen == 2);
-#else
-    __CPROVER_assume(sublen <= VC_MAXOBJ && replen <= sublen);
-#endif
-    /* known finding: maxsize is ignored by the main loop and by the tail copy.  The outputs that fit cannot be described without counting the
-       matches, so the carve-out keeps the inputs whose WORST-CASE output fits: maxsize > inlen * max(1, replen / sublen) */
-    __CPROVER_assume(KF_C19_replace_substrings_maxsize == 2 ? !(maxsize >= C19_WORST(inlen) + 1) : (maxsize >= C19_WORST(inlen) + 1));
+    __CPROVER_assume(sublen <= VC_MAXOBJ && replen <= VC_MAXOBJ);
+    /* finding C19_replace_substrings_maxsize is fixed: every maxsize (0 included), every sublen / replen */
     C19_BLOCK(input, inlen, ci);
     C19_BLOCK(sub, sublen, cs);
     C19_BLOCK(rep, replen, cr);
     char *buffer = NEW_OBJ(maxsize);
     g_m = m; g_j = j; g_w = w;
-    g_nm = 0; g_prev = g_pm = g_prev1 = g_wd = g_wd_last = g_last = g_outlen = 0;
+    g_nm = 0; g_prev = g_pm = g_prev1 = g_wd = g_wd_last = g_last = g_outlen = 0; g_done = 0;
     g_mm_j = j;
     g_mm_watch = (w <= inlen) ? input + w : NULL;
     g_memcpy_k = (size_t)-1; g_memcpy_v = 0;
 
     replace_substrings(buffer, maxsize, input, inlen, sub, sublen, rep, replen);
 
-    __CPROVER_assert(g_last <= inlen && g_nm <= inlen, "replace_substrings: the scan ends inside the input");
+    if (maxsize == 0) { CANARY("replace_substrings maxsize == 0 reachable"); return; }
+    __CPROVER_assert(g_done && g_last <= inlen && g_nm <= inlen, "replace_substrings: the scan ends inside the input");
     if (sublen == 0)
-        __CPROVER_assert(g_nm == 0 && g_outlen == inlen, "replace_substrings: empty pattern: no match, plain copy");
+        __CPROVER_assert(g_nm == 0, "replace_substrings: empty pattern: no match");
     if (m < g_nm) {
         __CPROVER_assert(g_prev <= g_pm && C19_INSIDE(g_pm, sublen, inlen), "replace_substrings: match m lies at or behind its search start, inside the input");
         __CPROVER_assert(!(g_prev <= w && w < g_pm && C19_INSIDE(g_pm, sublen, inlen)) || (g_wd < sublen && input[w + g_wd] != sub[g_wd]), "replace_substrings: match m is the FIRST occurrence behind the previous match");
